@@ -33,6 +33,19 @@ def parse(mode):
     raise KeyError(mode)
 
 
+def enumerators_of(tu, enum_name):
+    out = []
+
+    def walk(n):
+        if n.get("kind") == "EnumDecl" and n.get("name") == enum_name:
+            out.extend(c.get("name") for c in n.get("inner", []) if c.get("kind") == "EnumConstantDecl")
+        for c in n.get("inner", []):
+            if isinstance(c, dict):
+                walk(c)
+    walk(tu.ast)
+    return out
+
+
 def rx_size_of(tu):
     """SERCOMM_RX_MSG_SIZE as the build under analysis sees it (argument of sercomm_alloc_msgb in sercomm_drv_rx_char)"""
     vals = set()
@@ -66,8 +79,18 @@ def build_c(run):
                     raise K.Unsupported("enum rx_state: %s is %r in this build, the case table of contracts/c/sercomm.py assumes %d" % (nm, tu.enum_by_name.get(nm), val))
             return tu, rx
 
-        def one(mk):
+        def rx_states_known(tu):
+            """the receive step's state set is `the enumerators of enum rx_state as declared in the CURRENT source`: a state the contract's case
+            table does not know puts the step function out of reach (the statement-level oracle decides), it is not a violation"""
+            names = enumerators_of(tu, "rx_state")
+            extra = sorted(set(names) - set(CT.STATE_NAMES))
+            if extra:
+                raise K.Unsupported("enum rx_state declares %s: receive states the case table of contracts/c/sercomm.py does not describe" % ", ".join(extra))
+
+        def one(mk, nm):
             tu, rx = prepared()
+            if nm == "sercomm_drv_rx_char":
+                rx_states_known(tu)
             n0 = len(run.obls)
             K.verify(run, ID, tu, mk(rx), tag_extra={"build": mode, "rx_size": rx})
             for o in run.obls[n0:]:
@@ -75,7 +98,7 @@ def build_c(run):
         # one section per function and build: a step contract that cannot be bound to a refactored function is out of reach on its own
         for nm, mk in (("sercomm_sendmsg", lambda rx: CT.SendMsg), ("sercomm_drv_pull", lambda rx: CT.DrvPull), ("sercomm_drv_rx_char", lambda rx: CT.DrvRxChar(rx)),
                        ("sercomm_register_rx_cb", lambda rx: CT.RegisterRxCb)):
-            K.sect(run, "%s (%s build)" % (nm, mode), one, mk)
+            K.sect(run, "%s (%s build)" % (nm, mode), one, mk, nm)
         # the spec-level stages reason about the step relations of the contracts; the buffer size is the build's
         K.sect(run, "coupling invariant (%s build)" % mode, lambda: coupling(run, mode, prepared()[1]))
         K.sect(run, "resync lemma (%s build)" % mode, lambda: resync(run, mode, prepared()[1]))
@@ -214,7 +237,7 @@ def coupling(run, mode, RX):
 def txrep(tx):
     """the representation invariant DrvPull requires and re-establishes"""
     cur = z3.Select(tx.buf, tx.n)
-    return [z3.Not(tx.idle), tx.d <= tx.n, tx.n <= tx.t, z3.Implies(tx.esc, z3.And(tx.n < tx.t, W.needs_escape(W.xor20(cur))))]
+    return [z3.Not(tx.idle), tx.d <= tx.n, tx.n <= tx.t, z3.Implies(tx.esc, z3.And(tx.n < tx.t, CT.wire_safe(cur)))]
 
 
 def addr_empty(rx, RX):
@@ -470,12 +493,21 @@ def judge(exp_wire, exp_deliv, obs, only_probe=None):
         if only_probe not in obs["deliveries"]:
             bad.append("frame (dlci %d, %d octets) sent after the frame following the over-long one was not delivered" % (only_probe[0], len(only_probe[1])))
         return bad
-    if obs["wire"] != exp_wire:
-        for k, (a, b) in enumerate(zip(obs["wire"], exp_wire)):
-            if a != b:
-                i = next((i for i in range(min(len(a), len(b))) if a[i] != b[i]), min(len(a), len(b)))
-                bad.append("wire of batch %d differs from hdlc_wire at octet %d: got %s, expected %s" % (k, i, hexs(a[max(0, i - 4):i + 4]), hexs(b[max(0, i - 4):i + 4])))
-                break
+    # the wire is judged by the statement's grammar (spec.hdlc_wire.scan_transmitter_output): frames 7E body 7E, no unescaped 7E / 00 inside,
+    # bodies decode to dlci . 03 . payload in the order of the queueing discipline - which further octets an implementation escapes is its choice
+    for k, (a, b) in enumerate(zip(obs["wire"], exp_wire)):
+        got, err = W.scan_transmitter_output(a)
+        want, _ = W.scan_transmitter_output(b)
+        if err:
+            bad.append("wire of batch %d violates the wire grammar at octet %d: %s (around %s)" % (k, err[0], err[1], hexs(a[max(0, err[0] - 4):err[0] + 4])))
+            break
+        if got != want:
+            i = next((i for i in range(min(len(got), len(want))) if got[i] != want[i]), min(len(got), len(want)))
+            bad.append("wire of batch %d: frame %d does not decode to dlci . 03 . payload of the message whose turn it is (got %s, expected %s; %d frames, %d expected)"
+                       % (k, i, hexs((got[i] if i < len(got) else [])[:10]), hexs((want[i] if i < len(want) else [])[:10]), len(got), len(want)))
+            break
+    if len(obs["wire"]) != len(exp_wire):
+        bad.append("%d pump operations produced output, %d expected" % (len(obs["wire"]), len(exp_wire)))
     if obs["deliveries"] != exp_deliv:
         miss = [x for x in exp_deliv if x not in obs["deliveries"]]
         extra = [x for x in obs["deliveries"] if x not in exp_deliv]
@@ -575,8 +607,13 @@ def replay_rx_step(h, w, rx):
     got = obs.get("deliveries", [])
     if wellformed and not bad:
         exp = W.ideal_receive(stream2)
+        echo = any(x[0] == 128 for x in exp)                     # DLCI 128 is the echo handler (re-queues the message): not judged
+        exp = [x for x in exp if x[0] < 128]                     # the harness registers its handler for DLCI 0..127; a frame for a DLCI without
+        got = [x for x in got if x[0] < 128]                     # a handler is dropped (statement: delivered to the handler REGISTERED for its DLCI)
         long_ = [x for x in exp if len(x[1]) >= rx]
-        if not long_:
+        if echo:
+            pass
+        elif not long_:
             if got != exp:
                 bad.append("deliveries differ from the ideal receiver: expected %s, observed %s" % ([(a, hexs(b[:8]), len(b)) for a, b in exp[:4]], [(a, hexs(b[:8]), len(b)) for a, b in got[:4]]))
         else:
